@@ -505,7 +505,11 @@ class ParseCounter:
     def most_common(self):
         if self.nparses == 0:
             raise RuntimeError('ParseCounter.most_common: no parse counted!')
-        return [c.most_common(1)[0][0] for c in self.counters]
+        # the most frequent parse of each utterance. Among equally
+        # frequent parses take the smallest one, so that the result
+        # does not depend on the order in which the parses arrived.
+        return [min(c.items(), key=lambda x: (-x[1], x[0]))[0]
+                for c in self.counters]
 
 
 def yield_parses(lines, ignore_firsts=0):
